@@ -2,7 +2,8 @@
    handler case by case) differs from the frame-level behaviour (M1 applied to the reader's
    output): the known classes K1 / K4 of C08, as closed terms evaluated by the kernel. *)
 From Passage Require Import Lib.Bytes Codec.VarInt Codec.Desc Gen.PacketsGen Gen.ConstsGen
-  Codec.PacketCheck Conn.Types Conn.Prog Conn.Sem1 Conn.Sem2 Conn.Reader.
+  Codec.PacketCheck Conn.Types Conn.Prog Conn.Sem1 Conn.Sem2Old Conn.Reader.
+Import OldM2.
 
 Definition mkframe (id : Z) (body : bytes) : bytes :=
   write_varint (Z.of_nat (length (write_varint id) + length body)) ++ write_varint id ++ body.
